@@ -1,4 +1,44 @@
-(* C13 placeholder, replaced below *)
-From RV Require Import Model.Mapping.
-Theorem C13_placeholder : True. Proof. exact I. Qed.
-Eval cbv in "ASSUMPTIONS-OF C13_placeholder"%string. Print Assumptions C13_placeholder.
+(* C13  Inventory indexes are the exact inverse of per-node lists.  Statements only;
+   proofs in Proofs/InventoryFacts.v over the aggregation loop of Model/Node.v. *)
+From RV Require Import Model.Node Proofs.SortFacts Proofs.InventoryFacts.
+From Coq Require Import Permutation.
+
+(** The class index and the application index map each name to exactly the nodes whose rendered
+    list contains it, sorted; the node map holds exactly the rendered nodes. *)
+Theorem C13_indexes_are_exact_sorted_inverse :
+  forall rs inv, all_ok rs -> inventory_of rs empty_inventory = Ok inv ->
+  forall c n,
+    (In n (ix_get c (inv_classes inv)) <-> exists i, In (n, i) (oks_of rs) /\ In c (ni_classes i)) /\
+    (In n (ix_get c (inv_apps inv)) <-> exists i, In (n, i) (oks_of rs) /\ In c (ni_apps i)) /\
+    sorted (ix_get c (inv_classes inv)) /\ sorted (ix_get c (inv_apps inv)).
+Proof. exact inventory_index_inverse. Qed.
+Eval cbv in "ASSUMPTIONS-OF C13_indexes_are_exact_sorted_inverse"%string. Print Assumptions C13_indexes_are_exact_sorted_inverse.
+
+Theorem C13_index_lists_and_nodes_exact :
+  forall rs inv, all_ok rs -> inventory_of rs empty_inventory = Ok inv ->
+    (forall c, ix_get c (inv_classes inv) = sort_strings (occ ni_classes c (oks_of rs))) /\
+    (forall a, ix_get a (inv_apps inv) = sort_strings (occ ni_apps a (oks_of rs))) /\
+    inv_nodes inv = oks_of rs.
+Proof. exact inventory_index_exact. Qed.
+Eval cbv in "ASSUMPTIONS-OF C13_index_lists_and_nodes_exact"%string. Print Assumptions C13_index_lists_and_nodes_exact.
+
+Theorem C13_no_empty_entries :
+  forall rs inv, all_ok rs -> inventory_of rs empty_inventory = Ok inv ->
+    Forall (fun p => snd p <> []) (inv_classes inv) /\ Forall (fun p => snd p <> []) (inv_apps inv).
+Proof. exact inventory_no_empty_entries. Qed.
+Eval cbv in "ASSUMPTIONS-OF C13_no_empty_entries"%string. Print Assumptions C13_no_empty_entries.
+
+(** Rendering the inventory succeeds when every node renders ... *)
+Theorem C13_succeeds_when_all_nodes_render :
+  forall rs inv, all_ok rs -> inventory_of rs inv = Ok (run_oks (oks_of rs) inv).
+Proof. intros rs inv H. exact (inventory_of_ok rs inv H). Qed.
+Eval cbv in "ASSUMPTIONS-OF C13_succeeds_when_all_nodes_render"%string. Print Assumptions C13_succeeds_when_all_nodes_render.
+
+(** ... and fails when some node fails, with an error naming a node that fails and its error. *)
+Theorem C13_fails_naming_a_failing_node :
+  forall rs inv,
+    (forall n r, In (n, r) rs -> (exists i, r = Ok i) \/ (exists e, r = Err e)) ->
+    ~ all_ok rs ->
+    exists n e, In (n, Err e) rs /\ inventory_of rs inv = Err (ENodeFailed n e).
+Proof. exact inventory_of_fails. Qed.
+Eval cbv in "ASSUMPTIONS-OF C13_fails_naming_a_failing_node"%string. Print Assumptions C13_fails_naming_a_failing_node.
